@@ -378,6 +378,7 @@ func ndAssert(fr *frame, a []value) value {
 		p.sv.send("(assert " + mkNot(t) + ")")
 		t0 := time.Now()
 		r := p.sv.checkSat()
+		timedOut := r == "unknown"
 		if (r == "unknown" || time.Since(t0) > 2*time.Second) && p.sv.log != nil {
 			n := atomic.AddInt64(&p.ex.dumpSeq, 1)
 			if n <= 20 {
@@ -399,6 +400,9 @@ func ndAssert(fr *frame, a []value) value {
 			p.ex.inconclusive("solver answered unknown for assertion " + id)
 		}
 		p.sv.send("(pop 1)")
+		if timedOut {
+			p.resync() // a session that timed out is not trusted again
+		}
 		// continue under the assertion (as an assumption) if that is feasible
 		if r != "unsat" {
 			if p.check(t) == "unsat" {
